@@ -89,3 +89,21 @@ def mk_engine(spec, decimals=3, explicit_weights=False):
                      input_variables=[mk_input(v) for v in spec["inputs"]],
                      output_variables=[mk_output(v) for v in spec["outputs"]],
                      rule_blocks=[mk_block(b, decimals, explicit_weights) for b in spec["blocks"]])
+
+
+def mk_engine_incremental(spec, decimals=3, explicit_weights=False):
+    """The same engine assembled step by step, as a program does: empty engine, variables appended, term references
+    updated, rule blocks appended and loaded."""
+    e = fl.Engine(name=spec.get("name", "E"), description=spec.get("description", ""))
+    for v in spec["inputs"]:
+        e.input_variables.append(mk_input(v))
+    for v in spec["outputs"]:
+        e.output_variables.append(mk_output(v))
+    for v in e.variables:
+        for t in v.terms:
+            t.update_reference(e)
+    for b in spec["blocks"]:
+        rb = mk_block(b, decimals, explicit_weights)
+        e.rule_blocks.append(rb)
+        rb.load_rules(e)
+    return e
